@@ -61,9 +61,12 @@ def _units(rest, radix, first):
         toks = rest.split()[:1]                      # one 32-bit unit wider than the code column (radix 2)
     if not toks:
         return []
+    if area.strip() in ("ALL", "NONE"):
+        return None                                  # MACEXP / RESTORE report (lstmacroexp.c), not code
+    shape_radix = max(radix, 16)                     # unit-shaped: digits of the radix (or hexadecimal digits)
     out = []
     for t in toks:
-        if len(t) not in by_width or not re.match(r"^[0-9A-Za-z]+$", t):
+        if len(t) not in by_width or parse_int(t, shape_radix) is None:
             return None
         out.append((by_width[len(t)], parse_int(t, radix)))
     return out
@@ -171,11 +174,16 @@ def parse_noice(text):
     lines = []
     base = 0
     fil = None
+    infunc = False
     for ln in text.split("\n"):
         f = ln.split()
         if not f:
             continue
-        if f[0] == "DEFINE" and len(f) == 3:
+        if f[0] == "FUNCTION":
+            infunc = True                 # symbols local to a section follow: not judged
+        elif f[0] == "}FUNC":
+            infunc = False
+        elif f[0] == "DEFINE" and len(f) == 3 and not infunc:
             defs.append((f[1], int(f[2], 16)))
         elif f[0] == "FILE" and len(f) == 3:
             fil, base = f[1], int(f[2], 16)
@@ -253,9 +261,10 @@ def emissions(trace):
             bs = list(bytes.fromhex(e["bytes"]))
         else:
             bs = []
+        units = len(bs) // max(1, e["gran"]) if k == "emit" else (e.get("n", 0) if k == "reserve" else 0)
         out.append({"k": k, "line": e["line"], "seg": e["seg"], "gran": e["gran"], "addr": split24(e["addr"]),
-                    "ph": split24(e.get("ph", 0)), "bytes": bs, "n": e.get("n", 0), "_addr": e["addr"],
-                    "_ph": e.get("ph", 0)})
+                    "ph": split24(e.get("ph", 0)), "bytes": bs, "n": e.get("n", 0), "units": units,
+                    "_addr": e["addr"], "_ph": e.get("ph", 0)})
     return out
 
 
